@@ -73,7 +73,11 @@ def check_buffer(I, buf, starts, mode, e):
         except visa.HarnessTimeout:
             return fails, stats
         except Exception as x:
-            return [(I.short + ":" + bucket_of_exception("sweep-raise", x), repr(x))], stats  # decoder crashes are C17's, but a crash of the sweep itself is reported
+            b_ = bucket_of_exception("sweep-raise", x)
+            if ":arch/" in b_:
+                stats["decoder_crash_c17"] = 1  # a crash inside a spec hook is C17's business
+                return fails, stats
+            return [(I.short + ":" + b_, repr(x))], stats  # a crash of the sweep / fetch machinery itself is reported
         stats["instr"] = len(ins)
         # (a) consecutive instructions, bytes = memory
         pos = 0
